@@ -6,7 +6,12 @@
    Hooks are scripted (data-driven): what a hook does to the context / the result is data that
    both the harness (real closures and hook objects) and this model interpret.
 
-     ctx  : the part of context::Context a hook can change, one u64 (trace_context.span_id)
+     ctx  : the part of context::Context a hook can change: the span id (one u64,
+            trace_context.span_id) and the deadline.  The deadline is kept exactly, as a signed
+            number of milliseconds relative to the instant T0 at which the call is made; no hook
+            and no wrapper awaits anything that takes time, so Instant::now() = T0 throughout and
+            "the deadline has elapsed" is `dl <= 0` (the harness runs under its virtual clock).
+            None of the wrappers reads the deadline: it only travels with the context.
      req  : the request (u64), passed by shared reference to every before-hook
      result : Result<u64, ServerError>; the error carries a numeric code
 
@@ -23,37 +28,50 @@
      HookThenServeThenHook::serve  hook.before(&mut ctx,&req)?; resp = serve.serve(ctx, req);
                                    hook.after(&mut ctx, &mut resp) -- sees the ctx its before
                                    part left; resp is returned *)
-From Coq Require Import List NArith Bool.
+From Coq Require Import List NArith ZArith Bool.
 Import ListNotations.
 From TarpcV Require Import Base.
 Local Open Scope N_scope.
 
 Definition W64 : N := 18446744073709551616.
-Definition ctx := N.
+Definition ctx := (N * Z)%type.          (* span id, deadline - T0 in ms *)
+Definition c_span (c : ctx) : N := fst c.
+Definition c_dl (c : ctx) : Z := snd c.
+(* how a deadline is shown in a u64 result *)
+Definition enc_dl (d : Z) : N := Z.to_N (d + 1000000000000)%Z.
 Definition req := N.
 Inductive result := ROk (v : N) | RErr (code : N).
 
 (* ---- scripted hook effects ------------------------------------------------------------- *)
-(* on the context: keep / set / wrapping add (u64) *)
+(* on the span id: keep / set / wrapping add (u64); on the deadline: keep / set to T0 + k ms
+   (k < 0: in the past, k = 0: exactly now, k > 0: in the future) *)
 Inductive ceff := CKeep | CSet (v : N) | CAdd (d : N).
-Definition apply_ceff (e : ceff) (c : ctx) : ctx :=
+Inductive deff := DKeep | DSet (k : Z).
+Definition apply_ceff (e : ceff) (c : N) : N :=
   match e with CKeep => c | CSet v => v | CAdd d => (c + d) mod W64 end.
+Definition apply_deff (e : deff) (d : Z) : Z := match e with DKeep => d | DSet k => k end.
+Definition apply_ctx (ce : ceff) (de : deff) (c : ctx) : ctx :=
+  (apply_ceff ce (c_span c), apply_deff de (c_dl c)).
 
-(* whether a before-hook fails: never / always / if the context it was given is >= t /
-   if the request equals q.  The context effect is applied first, then the hook fails or not. *)
-Inductive feff := FNo | FFail (e : N) | FCtxGe (t e : N) | FReqEq (q e : N).
+(* whether a before-hook fails: never / always / if the span id it was given is >= t /
+   if the request equals q / if the deadline it was given has elapsed (a hook may look at the
+   deadline; the wrappers never do).  The context effect is applied first, then the hook fails
+   or not, judging by the context it was GIVEN. *)
+Inductive feff := FNo | FFail (e : N) | FCtxGe (t e : N) | FReqEq (q e : N) | FExpired (e : N).
 Definition apply_feff (f : feff) (c : ctx) (r : req) : option N :=
   match f with
   | FNo => None
   | FFail e => Some e
-  | FCtxGe t e => if t <=? c then Some e else None
+  | FCtxGe t e => if t <=? c_span c then Some e else None
   | FReqEq q e => if r =? q then Some e else None
+  | FExpired e => if (c_dl c <=? 0)%Z then Some e else None
   end.
 
 (* on the result (after-hooks): keep / overwrite / add to an Ok value (wrapping) /
-   turn an error into Ok v / turn Ok into an error / overwrite with Ok(ctx the hook sees) *)
+   turn an error into Ok v / turn Ok into an error / overwrite with Ok(span id the hook sees) /
+   overwrite with Ok(deadline the hook sees) *)
 Inductive reff := RKeep | RSet (x : result) | RMapOk (d : N) | RRecover (v : N) | RFailOk (e : N)
-                | RCtx.
+                | RCtx | RDl.
 Definition apply_reff (f : reff) (c : ctx) (x : result) : result :=
   match f with
   | RKeep => x
@@ -61,26 +79,30 @@ Definition apply_reff (f : reff) (c : ctx) (x : result) : result :=
   | RMapOk d => match x with ROk v => ROk ((v + d) mod W64) | RErr e => RErr e end
   | RRecover v => match x with ROk w => ROk w | RErr _ => ROk v end
   | RFailOk e => match x with ROk _ => RErr e | RErr e' => RErr e' end
-  | RCtx => ROk c
+  | RCtx => ROk (c_span c)
+  | RDl => ROk (enc_dl (c_dl c))
   end.
 
-(* handler: Ok(req + d) / Err e / Ok(ctx it was called with) *)
-Inductive heff := HPlus (d : N) | HErr (e : N) | HCtx.
+(* handler: Ok(req + d) / Err e / Ok(span id it was called with) / Ok(deadline it was called with) *)
+Inductive heff := HPlus (d : N) | HErr (e : N) | HCtx | HDl.
 
-Record bh := { b_id : nat; b_ceff : ceff; b_feff : feff }.       (* BeforeRequest hook *)
-Record ah := { a_id : nat; a_ceff : ceff; a_reff : reff }.       (* AfterRequest hook *)
+Record bh := { b_id : nat; b_ceff : ceff; b_deff : deff; b_feff : feff }.   (* BeforeRequest hook *)
+Record ah := { a_id : nat; a_ceff : ceff; a_deff : deff; a_reff : reff }.   (* AfterRequest hook *)
 Record bah := { ba_b : bh; ba_a : ah }.                          (* one object implementing both *)
 Record hd := { h_id : nat; h_eff : heff }.                       (* the function given to serve() *)
 
 (* hook.before(&mut ctx, &req): the context it leaves and whether it failed *)
 Definition before_eff (h : bh) (c : ctx) (r : req) : ctx * option N :=
-  (apply_ceff (b_ceff h) c, apply_feff (b_feff h) c r).
+  (apply_ctx (b_ceff h) (b_deff h) c, apply_feff (b_feff h) c r).
 (* hook.after(&mut ctx, &mut resp): the context and the result it leaves *)
 Definition after_eff (h : ah) (c : ctx) (x : result) : ctx * result :=
-  (apply_ceff (a_ceff h) c, apply_reff (a_reff h) c x).
+  (apply_ctx (a_ceff h) (a_deff h) c, apply_reff (a_reff h) c x).
 Definition after_res (h : ah) (c : ctx) (x : result) : result := snd (after_eff h c x).
 Definition handler_eff (h : hd) (c : ctx) (r : req) : result :=
-  match h_eff h with HPlus d => ROk ((r + d) mod W64) | HErr e => RErr e | HCtx => ROk c end.
+  match h_eff h with
+  | HPlus d => ROk ((r + d) mod W64) | HErr e => RErr e
+  | HCtx => ROk (c_span c) | HDl => ROk (enc_dl (c_dl c))
+  end.
 
 (* ---- the Serve tree --------------------------------------------------------------------- *)
 Inductive blist := BNil | BCons (first : bh) (rest : blist).   (* BeforeRequestNil / ..Cons *)
@@ -182,6 +204,34 @@ Definition count_handler (evs : list event) : nat := length (filter is_handler e
    nest_before [h1; ..; hn] s = Before h1 (.. (Before hn s)) runs h1 first *)
 Definition nest_before (hs : list bh) (s : serveT) : serveT := fold_right Before s hs.
 
+(* Deadline-blind compositions: no hook looks at or changes the deadline.  For those, C19 says
+   the deadline's value must not matter at all (C19_deadline_irrelevant): events with the
+   deadline erased, and the result, are the same for every deadline. *)
+Definition blind_b (h : bh) : bool :=
+  match b_deff h, b_feff h with DKeep, FExpired _ => false | DKeep, _ => true | _, _ => false end.
+Definition blind_a (h : ah) : bool :=
+  match a_deff h, a_reff h with DKeep, RDl => false | DKeep, _ => true | _, _ => false end.
+Definition blind_h (h : hd) : bool := match h_eff h with HDl => false | _ => true end.
+Fixpoint blind_l (l : blist) : bool :=
+  match l with BNil => true | BCons f r => blind_b f && blind_l r end.
+Fixpoint blind (s : serveT) : bool :=
+  match s with
+  | Base h => blind_h h
+  | Before h s' => blind_b h && blind s'
+  | BeforeList l s' => blind_l l && blind s'
+  | After s' h => blind s' && blind_a h
+  | BeforeAfter h s' => blind_b (ba_b h) && blind_a (ba_a h) && blind s'
+  end.
+Inductive sevent :=        (* an event with the deadline erased *)
+| SBefore (id : nat) (span : N) (r : req) | SHandler (id : nat) (span : N) (r : req)
+| SAfter (id : nat) (span : N) (x : result).
+Definition erase (e : event) : sevent :=
+  match e with
+  | EBefore i c r => SBefore i (c_span c) r
+  | EHandler i c r => SHandler i (c_span c) r
+  | EAfter i c x => SAfter i (c_span c) x
+  end.
+
 (* ---- executable monitor ----------------------------------------------------------------- *)
 Definition result_eqb (a b : result) : bool :=
   match a, b with
@@ -189,18 +239,20 @@ Definition result_eqb (a b : result) : bool :=
   | RErr e, RErr f => e =? f
   | _, _ => false
   end.
+Definition ctx_eqb (a b : ctx) : bool := (c_span a =? c_span b) && (c_dl a =? c_dl b)%Z.
 Definition event_eqb (a b : event) : bool :=
   match a, b with
-  | EBefore i c r, EBefore j d q => Nat.eqb i j && (c =? d) && (r =? q)
-  | EHandler i c r, EHandler j d q => Nat.eqb i j && (c =? d) && (r =? q)
-  | EAfter i c x, EAfter j d y => Nat.eqb i j && (c =? d) && result_eqb x y
+  | EBefore i c r, EBefore j d q => Nat.eqb i j && ctx_eqb c d && (r =? q)
+  | EHandler i c r, EHandler j d q => Nat.eqb i j && ctx_eqb c d && (r =? q)
+  | EAfter i c x, EAfter j d y => Nat.eqb i j && ctx_eqb c d && result_eqb x y
   | _, _ => false
   end.
 
 (* The monitor reads the observed event list against the composition the user wrote (the tree)
    and the hooks' scripted behaviour.  It returns the result that must be sent and the events
    not consumed.  It is an acceptor, clause by clause of C19:
-     - a before-hook's event must come next, with the context left by the hooks before it;
+     - a before-hook's event must come next, with the context (span id AND deadline) left by
+       the hooks before it, whatever that deadline is -- elapsed or not;
        if that hook fails nothing else of this wrapper may follow and the result is its error;
      - the handler event carries the context the chain left;
      - an after-hook's event comes exactly once, directly after the events of what it wraps,
@@ -211,7 +263,7 @@ Definition event_eqb (a b : event) : bool :=
 Definition expect_before (h : bh) (c : ctx) (r : req) (evs : list event) : option (list event) :=
   match evs with
   | EBefore i c' r' :: rest =>
-    if Nat.eqb i (b_id h) && (c' =? c) && (r' =? r) then Some rest else None
+    if Nat.eqb i (b_id h) && ctx_eqb c' c && (r' =? r) then Some rest else None
   | _ => None
   end.
 
@@ -236,7 +288,7 @@ Fixpoint mon (s : serveT) (c : ctx) (r : req) (evs : list event) : option (resul
   | Base h =>
     match evs with
     | EHandler i c' r' :: rest =>
-      if Nat.eqb i (h_id h) && (c' =? c) && (r' =? r) then Some (handler_eff h c r, rest) else None
+      if Nat.eqb i (h_id h) && ctx_eqb c' c && (r' =? r) then Some (handler_eff h c r, rest) else None
     | _ => None
     end
   | Before h s' =>
@@ -268,7 +320,7 @@ Fixpoint mon (s : serveT) (c : ctx) (r : req) (evs : list event) : option (resul
       | None =>
         match mon s' c1 r evs1 with
         | Some (x, EAfter i c' x' :: rest) =>
-          if Nat.eqb i (a_id (ba_a h)) && (c' =? c1) && result_eqb x' x
+          if Nat.eqb i (a_id (ba_a h)) && ctx_eqb c' c1 && result_eqb x' x
           then Some (after_res (ba_a h) c1 x, rest) else None
         | _ => None
         end
